@@ -11,29 +11,41 @@ namespace Rpft.Compile
 open Rpft Function
 
 theorem rowPre_clean {P : Params} {X : SParams} (ok : P.Ok) {s₁ : St} (hF : X.F = []) (hm : MR P s₁) (r : Row)
-    (hid : ¬ Invented r.nodeUuid) (hrv : RV s₁) : RowPre P X s₁ r :=
-  ⟨⟨fun e _ _ => by rw [hF]; simp, fun _ => hm⟩, fun d _ => by rw [hF]; simp, ok.hfix _ hid, hrv⟩
+    (hid : ¬ Invented r.nodeUuid) (hrv : RV s₁) (hnm : X.nmAll = true ∨ (r.nodeUuid = [] ∧ r.nodeName = [])) :
+    RowPre P X s₁ r :=
+  ⟨⟨fun e _ _ => by rw [hF]; simp, fun _ => hm⟩, fun d _ => by rw [hF]; simp, ok.hfix _ hid, hrv, hnm⟩
+
+/-- the rows of this scope (not those of nested parsers) give no node names / identifiers -/
+def Event.noNames : Event → Bool
+  | .row r => r.nodeUuid.isEmpty && r.nodeName.isEmpty
+  | _ => true
+
+def noNamesL (es : List Event) : Bool := es.all Event.noNames
 
 mutual
 theorem step_clean : ∀ e : Event, e.okIds = true → ∀ (P : Params) (X : SParams) (s₁ s₂ : St), P.Ok →
-    Sim P X s₁ s₂ → X.F = [] → CL P s₁ → SB s₁ → RV s₁ →
+    Sim P X s₁ s₂ → X.F = [] → (X.nmAll = true ∨ e.noNames = true) → CL P s₁ → SB s₁ → RV s₁ →
     rwp (step e) (step e) s₁ s₂ (fun _ t₁ _ t₂ => Sim P X t₁ t₂ ∧ Eff P s₁ t₁)
   | .row r => by
-    intro hid P X s₁ s₂ ok h hF hcl hsb hrv
+    intro hid P X s₁ s₂ ok h hF hnm hcl hsb hrv
     unfold step
     have hid' : ¬ Invented r.nodeUuid := by simpa [Event.okIds] using hid
-    refine rwp_mono (parseRow_rel ok h r (rowPre_clean ok hF hcl.mr r hid' hrv)) ?_
+    have hnm' : X.nmAll = true ∨ (r.nodeUuid = [] ∧ r.nodeName = []) := by
+      rcases hnm with hh | hh
+      · exact .inl hh
+      · right; simpa [Event.noNames] using hh
+    refine rwp_mono (parseRow_rel ok h r (rowPre_clean ok hF hcl.mr r hid' hrv hnm')) ?_
     intro _ t₁ _ t₂ ⟨ht, _, hf, _⟩
     exact ⟨ht, hf⟩
   | .openGroup edges starting => by
-    intro _ P X s₁ s₂ ok h hF hcl hsb hrv
+    intro _ P X s₁ s₂ ok h hF _ hcl hsb hrv
     unfold step
     refine rwp_mono (openGroup_rel ok h edges starting
       (fun _ => ⟨fun e _ _ => by rw [hF]; simp, fun _ => hcl.mr⟩) hrv) ?_
     intro _ t₁ _ t₂ ⟨ht, _, _, hf, _⟩
     exact ⟨ht, hf⟩
   | .closeGroup rowId => by
-    intro _ P X s₁ s₂ ok h hF hcl hsb hrv
+    intro _ P X s₁ s₂ ok h hF _ hcl hsb hrv
     unfold step
     refine rwp_mono (closeGroup_rel ok h rowId ?_ (fun b hb => hsb.lt hb)) ?_
     · intro b c rest hst htb
@@ -42,34 +54,42 @@ theorem step_clean : ∀ e : Event, e.okIds = true → ∀ (P : Params) (X : SPa
       have := hm b (by rw [hst]; rfl) (hcl.2 b (by rw [hst]; simp))
       exact ⟨ht, fun _ => this.1, fun _ => this.2 hcl, hsb', hrv', hhk⟩
   | .insert r body => by
-    intro hid P X s₁ s₂ ok h hF hcl hsb hrv
-    have hb : BodyRel body := fun P' X' u₁ u₂ ok' hu hF' hcl' hsb' hrv' =>
-      steps_clean body (by simpa [Event.okIds] using hid) P' X' u₁ u₂ ok' hu hF' hcl' hsb' hrv'
+    intro hid P X s₁ s₂ ok h hF _ hcl hsb hrv
+    have hb : BodyRel body := fun P' X' u₁ u₂ ok' hu hF' hall hcl' hsb' hrv' =>
+      steps_clean body (by simpa [Event.okIds] using hid) P' X' u₁ u₂ ok' hu hF' (.inl hall) hcl' hsb' hrv'
     refine rwp_mono (insert_rel ok h r body hb ⟨fun e _ _ => by rw [hF]; simp, fun _ => hcl.mr⟩ hsb) ?_
     intro _ t₁ _ t₂ ⟨ht, _, _, hf⟩
     exact ⟨ht, hf⟩
 theorem steps_clean : ∀ es : List Event, okIdsL es = true → ∀ (P : Params) (X : SParams) (s₁ s₂ : St), P.Ok →
-    Sim P X s₁ s₂ → X.F = [] → CL P s₁ → SB s₁ → RV s₁ →
+    Sim P X s₁ s₂ → X.F = [] → (X.nmAll = true ∨ noNamesL es = true) → CL P s₁ → SB s₁ → RV s₁ →
     rwp (steps es) (steps es) s₁ s₂ (fun _ t₁ _ t₂ => Sim P X t₁ t₂ ∧ Eff P s₁ t₁)
   | [] => by
-    intro _ P X s₁ s₂ ok h hF hcl hsb hrv
+    intro _ P X s₁ s₂ ok h hF _ hcl hsb hrv
     unfold steps
     rw [rwp_pure]
     exact ⟨h, Eff.of_blkEq (BlkEq.refl _) rfl⟩
   | e :: es => by
-    intro hid P X s₁ s₂ ok h hF hcl hsb hrv
+    intro hid P X s₁ s₂ ok h hF hnm hcl hsb hrv
     have hid2 : e.okIds = true ∧ okIdsL es = true := by simpa [okIdsL] using hid
+    have hnm1 : X.nmAll = true ∨ e.noNames = true := by
+      rcases hnm with hh | hh
+      · exact .inl hh
+      · right; simp [noNamesL] at hh; exact hh.1
+    have hnm2 : X.nmAll = true ∨ noNamesL es = true := by
+      rcases hnm with hh | hh
+      · exact .inl hh
+      · right; simp [noNamesL] at hh ⊢; exact hh.2
     unfold steps
     rw [rwp_bind]
-    refine rwp_mono (step_clean e hid2.1 P X s₁ s₂ ok h hF hcl hsb hrv) ?_
+    refine rwp_mono (step_clean e hid2.1 P X s₁ s₂ ok h hF hnm1 hcl hsb hrv) ?_
     intro _ u₁ _ u₂ ⟨hu, hf⟩
-    refine rwp_mono (steps_clean es hid2.2 P X u₁ u₂ ok hu hF (hf.cl hcl) (hf.sb hsb) (hf.rv hrv)) ?_
+    refine rwp_mono (steps_clean es hid2.2 P X u₁ u₂ ok hu hF hnm2 (hf.cl hcl) (hf.sb hsb) (hf.rv hrv)) ?_
     intro _ t₁ _ t₂ ⟨ht, hf'⟩
     exact ⟨ht, hf.trans hf'⟩
 end
 
 theorem bodyRel_of_okIds (body : List Event) (h : okIdsL body = true) : BodyRel body :=
-  fun P X s₁ s₂ ok hs hF hcl hsb hrv => steps_clean body h P X s₁ s₂ ok hs hF hcl hsb hrv
+  fun P X s₁ s₂ ok hs hF hall hcl hsb hrv => steps_clean body h P X s₁ s₂ ok hs hF (.inl hall) hcl hsb hrv
 
 /-! ### the outer scope after the block -/
 
@@ -120,7 +140,7 @@ structure TopInv (P : Params) (flag : Bool) (depth : Nat) (s : St) : Prop where
   sb : SB s
   rv : RV s
 
-theorem steps_top (ok : P.Ok) : ∀ (es : List Event) (flag : Bool) (depth : Nat) (s₁ s₂ : St),
+theorem steps_top (ok : P.Ok) (hall : X.nmAll = true) : ∀ (es : List Event) (flag : Bool) (depth : Nat) (s₁ s₂ : St),
     avoids X.F flag depth es = true → okIdsL es = true → Sim P X s₁ s₂ → TopInv P flag depth s₁ →
     rwp (steps es) (steps es) s₁ s₂ (fun _ t₁ _ t₂ => Sim P X t₁ t₂) := by
   intro es
@@ -141,7 +161,7 @@ theorem steps_top (ok : P.Ok) : ∀ (es : List Event) (flag : Bool) (depth : Nat
       unfold step
       have hid' : ¬ Invented r.nodeUuid := by simpa [Event.okIds] using hid2.1
       have hpre : RowPre P X s₁ r := by
-        refine ⟨edgesPre_of_ok he inv.mr, ?_, ok.hfix _ hid', inv.rv⟩
+        refine ⟨edgesPre_of_ok he inv.mr, ?_, ok.hfix _ hid', inv.rv, .inl hall⟩
         intro d hdm
         rw [List.all_eq_true] at hd
         have := hd d hdm
